@@ -80,6 +80,54 @@ RULES = [
     (r"voltage:decompress_destripe_cbin:kwdrop:.*open=", "equivalent", "open=True is the default"),
     (r"voltage:decompress_destripe_cbin:argswap:L454", "gap-closed", "caller-chosen filter settings through the file pipeline (C06 opt 7)"),
     (r"voltage:decompress_destripe_cbin:arith:L469", "outside", "default worker count"),
+    (r"voltage:decompress_destripe_cbin:(kwdrop|const):L(470|472|473|523|525|526|528|529)", "equivalent", "arguments of the pyfftw plans and scratch arrays (threads, axes of a 2-D plan, float32 of an array that is float32 anyway): the stand-in for pyfftw - and pyfftw itself - compute the same transform"),
+    (r"voltage:decompress_destripe_cbin:kwdrop:L(483|493)", "equivalent", "dtype of an all-False placeholder / of a buffer that is float32 already"),
+    (r"voltage:decompress_destripe_cbin:const:L487", "equivalent", "np.float32(k).nbytes is 4 for every k"),
+    (r"voltage:decompress_destripe_cbin:(const|arith):L(494|498|588)", "outside", "VALUES of the RMS time stamps (the property fixes one entry per batch, which is checked)"),
+    (r"voltage:decompress_destripe_cbin:(cmp|const):L516", "equivalent", "guard of workers starting at or beyond the last batch: `n_batch > 0` vs `>= 0` / `> -1` differ for the first worker only, which never starts beyond the end; `* 2` vs `* 3` taper margins select the same batches for the lengths of the workload"),
+    (r"voltage:decompress_destripe_cbin:(cmp|const):L521", "equivalent", "the last worker's upper bound: ns vs (i+1) x chunk differ by less than a batch and the loop stops at ns anyway"),
+    (r"voltage:decompress_destripe_cbin:const:L541", "equivalent", "`i_chunk == 0` vs `== -1`: only moves the first worker's first batch start by 0"),
+    (r"voltage:decompress_destripe_cbin:argswap:L(549|574)", "equivalent", "np.minimum arguments swapped; x / y swapped in a distance"),
+    (r"voltage:decompress_destripe_cbin:kwdrop:L552", "equivalent", "fs of the saturation call equals the default (30 kHz recordings; the slew criterion never decides a flag of the workload)"),
+    (r"voltage:decompress_destripe_cbin:const:L575_0", "equivalent", "np.where(...)[0] vs [-1]"),
+    (r"voltage:decompress_destripe_cbin:const:L575_3", "gap-closed", "rejection recordings now hold an outside-brain top block (C06 `make_recording(faults=True)`); fires when the detector labels it"),
+    (r"voltage:decompress_destripe_cbin:(cmp|const):L60[34]", "gap-closed", "a padding of exactly one sample in every run (C06 opt 2, case 8)"),
+    (r"voltage:decompress_destripe_cbin:not:L608", "outside", "compute_rms=False is not part of the property (the RMS file is stated for the default)"),
+    (r"voltage:decompress_destripe_cbin:kwdrop:L613", "equivalent", "the worker count only reaches joblib (the tasks are the same list)"),
+    (r"voltage:decompress_destripe_cbin:const:L627", "equivalent", "shape[0] vs shape[-1] of a 1-D array"),
+    (r"voltage:detect_bad_channels:.*:L(65[7-9]|66[01])", "equivalent", "dead code (`rneighbours` is never called)"),
+    (r"voltage:detect_bad_channels:.*:L70[12]", "equivalent", "dead branch (channels_similarity is always called with nmed=0)"),
+    (r"voltage:detect_bad_channels:.*:L75[01]", "outside", "display branch"),
+    (r"voltage:detect_bad_channels:const:L(731|737|739)_0", "equivalent", "np.where(...)[0] vs [-1]"),
+    (r"voltage:detect_bad_channels:(cmp|argswap):L73[1-9]", "equivalent", "strict vs non-strict comparison of floating-point features; logical_or arguments swapped"),
+    (r"voltage:detect_bad_channels:const:L741", "equivalent", "cumsum started at 1: the same groups"),
+    (r"voltage:detect_bad_channels:(cmp|const|not):L71[057]", "outside", "LF-band branch and band switch (quantifier: AP band, fs = 30 kHz)"),
+    (r"voltage:detect_bad_channels:const:L714", "outside", "design constants of the detector's high-pass"),
+    (r"voltage:detect_bad_channels:.*:L(672|673|688|69[3-6]|706|72[56])", "outside", "internals of the detector's features (detrend padding at the probe ends, DC handling of zero-mean data, zero-lag vs lag-1 normalisation on a smooth background, width of the high-frequency band): the property fixes the LABELS of clear faults on recordings with a coherent background, which every one of these variants still produces on the workload"),
+    (r"voltage:detect_bad_channels_cbin:", "outside", "display branch (median features and snippet handed to the plot)"),
+    (r"voltage:svd_denoise_npx:const:L939", "outside", "default rank"),
+    (r"voltage:(svd_denoise_npx|_svd_denoise):", "equivalent", "dtype of an all-zero int array; [0] vs [-1]; full vs economy SVD truncated to the same rank"),
+    # ---- ibldsp.utils
+    (r"utils:sync_timestamps:not:L28", "outside", "linear and interpolating mode swapped: both satisfy every clause (accuracy at held-out events, drift, pairs); which interpolant answers is not stated"),
+    (r"utils:sync_timestamps:.*:L(5[5-9])", "outside", "several b events within tbin of one a event: impossible with spacings >= 0.5 s (quantifier)"),
+    (r"utils:sync_timestamps:", "equivalent", "raster value 1 vs 2; x.shape[0] vs [-1]; mode='full' is the default; ib initialised to -2; [0] of np.where / of a one-element array; `ib >= 0` vs `> 0` only re-offers the b event already paired with a[0], which lies farther than tbin from every other a; setxor1d symmetric; closure default linear=linear"),
+    (r"utils:parabolic_max:", "outside", "maxima ON the first / last sample and exactly flat tops (clamping and guard branches), commutative swaps: interior maxima of 1-D and 2-D inputs are checked and every other edit of the function is caught"),
+    (r"utils:(fronts|rises):const:", "equivalent", "np.where(...)[0] vs [-1] of a 1-D input"),
+    (r"utils:rises:cmp:", "outside", "a sample exactly ON the step"),
+    (r"utils:WindowGenerator\.", "equivalent", "max / min arguments swapped; sym=True is the default"),
+    (r"utils:make_channel_index:", "equivalent", "column vs row sums of a symmetric neighbour matrix; np.full with an int fill value; shape[0] vs [-1] of a 1-D array"),
+    (r"utils:rms:", "outside", "VALUES of the RMS quality file / feature: no property states them (C06: one entry per batch)"),
+    # ---- ibldsp.fourier
+    (r"fourier:convolve:", "equivalent", "w.shape[-1] vs [0], concatenate axis and w.shape[:-1] of a 1-D kernel; zero padding in the array's own dtype vs float64; axis=-1 defaults; (nsw + 1) % 2 == (nsw - 1) % 2"),
+    (r"fourier:ns_optim_fft:", "equivalent", "table a little larger / smaller (sizes beyond 2^24 are not reached); meshgrid arguments swapped before a product"),
+    (r"fourier:dephas:", "outside", "dephas is not named by any property"),
+    (r"fourier:(_freq_filter|lp|fscale):", "equivalent", "b[0:3] handed to a function that reads b[0], b[1]; typ equal to the default; axis=0 of a 1-D array; [0] vs [-1]"),
+    # ---- ibldsp.waveforms
+    (r"waveforms:(invert_peak_waveform|find_tip_trough):cmp:", "outside", "a peak of exactly 0 / a ratio of exactly 1.5"),
+    (r"waveforms:(invert_peak_waveform|find_tip_trough|recovery_point):const:", "equivalent", "[0] vs [-1] of np.where; `len(...) > 0` vs `> -1` runs the block on an empty index"),
+    (r"waveforms:find_tip_trough:cmp:L208", "equivalent", "`len(...) > 0` vs `>= 0` runs the block on an empty index"),
+    (r"waveforms:half_peak_point:", "equivalent", "argmax of `> 0` vs `>= 0` on values that are never exactly 0 (noise); marker value 2 instead of 1 before an argmax"),
+    (r"waveforms:recovery_point:cmp:", "outside", "a recovery offset as long as the waveform itself (checked range: offset < length); `len(...) > 0` vs `>= 0`"),
 ]
 
 
